@@ -19,9 +19,9 @@ RULE = ("per type universe: every sequence (= multiset in every registration "
 EXPLANATION = ("exhaustive enumeration; reference = brute-force enumeration "
                "of all offer sequences without repetition whose issubclass "
                "chain is applicable and whose factories all succeed")
-BOUNDS = {"quick": "6 universes (linear, diamond, ABC/virtual, falsy "
-                   "adapter, branching, late ABC registration), <=3 offers "
-                   "(linear), <=2 offers (others)",
+BOUNDS = {"quick": "7 universes (linear, diamond, ABC/virtual, falsy "
+                   "adapter, branching, late ABC registration, mixin + virtual base), <=3 offers "
+                   "(linear, mixin), <=2 offers (others)",
           "thorough": "<=4 offers on a reduced pair set (linear), <=3 "
                       "(others)"}
 ASSUMPTIONS = ["factories without side effects; conditions independent of "
